@@ -246,14 +246,14 @@ impl fmt::Display for Url {
 impl fmt::Display for Pinned {
     fn fmt(&self, f: &mut fmt::Formatter) -> fmt::Result {
         // git+<url/to/repo>?<ref_kind>=<ref_string>#<commit>
-        write!(
-            f,
-            "{}+{}?{}#{}",
-            Self::PREFIX,
-            self.source.repo,
-            self.source.reference,
-            self.commit_hash
-        )
+        write!(f, "{}+{}?", Self::PREFIX, self.source.repo)?;
+        match &self.source.reference {
+            // A `rev` other than the pinned commit hash itself (e.g. an abbreviated hash) has to
+            // be written out, a bare `rev` is read back as `Rev(<commit>)`.
+            Reference::Rev(rev) if *rev != self.commit_hash => write!(f, "rev={rev}")?,
+            reference => write!(f, "{reference}")?,
+        }
+        write!(f, "#{}", self.commit_hash)
     }
 }
 
@@ -298,6 +298,7 @@ impl FromStr for Pinned {
         // - `branch=<branch-name>#<commit-hash>`
         // - `tag=<tag-name>#<commit-hash>`
         // - `rev#<commit-hash>`
+        // - `rev=<rev>#<commit-hash>`
         // - `default#<commit-hash>`
         // The commit hash follows the last `#`, git reference names may contain `#` themselves.
         let (reference, commit_hash) = s.rsplit_once('#').ok_or(PinnedParseError::CommitHash)?;
@@ -306,12 +307,15 @@ impl FromStr for Pinned {
 
         const BRANCH: &str = "branch=";
         const TAG: &str = "tag=";
+        const REV: &str = "rev=";
         let reference = if reference.find(BRANCH) == Some(0) {
             Reference::Branch(reference[BRANCH.len()..].to_string())
         } else if reference.find(TAG) == Some(0) {
             Reference::Tag(reference[TAG.len()..].to_string())
         } else if reference == "rev" {
             Reference::Rev(commit_hash.to_string())
+        } else if let Some(rev) = reference.strip_prefix(REV) {
+            Reference::Rev(rev.to_string())
         } else if reference == "default-branch" {
             Reference::DefaultBranch
         } else {
